@@ -811,3 +811,16 @@ def free_udp_port():
         finally:
             t.close()
     return 0
+
+
+def die_with_parent():
+    """initializer of worker processes: a worker is killed when its parent goes away for whatever reason, so that no
+    orphan keeps the check's stdout pipe open (a caller reading the pipe would wait for ever)"""
+    try:
+        import ctypes
+        import signal
+        ctypes.CDLL("libc.so.6", use_errno=True).prctl(1, signal.SIGKILL)      # PR_SET_PDEATHSIG
+        if os.getppid() == 1:
+            os._exit(0)
+    except Exception:   # noqa
+        pass
